@@ -199,6 +199,57 @@ def check_stream(ctx, dex, cm, buf, tag, budget, declared=None):
     return out
 
 
+ODEX_JUMBO_BYTES = dict([(0xF2, 10)] + [(a, 10) for a in range(0xF3, 0xF9)] + [(a, 8) for a in range(0xF9, 0x100)])   # 5rc / 52c: 5 units, 41c / 40sc: 4 units
+
+
+def shard_mixed_formats(ctx, arg):
+    """ONE process disassembles code of an ODEX-format class manager and of a plain one in turn. A unit aaFF (aa != 0) is const-method-type vAA in a
+    plain DEX; in ODEX code F2FF..FFFF are the jumbo instructions of the optimizer and every other aaFF is no instruction. What one class manager
+    was given may not change what the other one reports."""
+    from androguard.core import dex
+    lo, hi = arg
+
+    def make_cm(odex):
+        cm = dex.ClassManager(None)
+        cm.packer = dex.DalvikPacker(0x12345678)
+        cm.odex_format = odex
+        return cm
+
+    def sweep(cm, code):
+        out, off = [], 0
+        try:
+            for ins in dex.LinearSweepAlgorithm.get_instructions(cm, len(code) // 2, code, 0):
+                out.append((off, ins.get_length()))
+                off += ins.get_length()
+        except dex.InvalidInstruction:
+            return "invalid"
+        return out
+    for aa in range(max(lo, 1), hi):
+        plain_code = bytes([0xFF, aa, 0x01, 0x00, 0x0E, 0x00])
+        odex_code = bytes([0x0E, 0x00, 0xFF, aa]) + bytes(8) + bytes([0x0E, 0x00])
+        n = ODEX_JUMBO_BYTES.get(aa)
+        want_odex = "invalid" if n is None else [(0, 2), (2, n)] + [(o, 2) for o in range(2 + n, 14, 2)]
+        want_plain = [(0, 4), (4, 2)]
+        order = ("odex", "plain", "odex") if aa % 2 else ("plain", "odex", "plain")
+        hist = []
+        for which in order:
+            cm = make_cm(which == "odex")
+            ctx.ev()
+            ctx.count("sweeps_with_alternating_odex_and_plain_class_managers")
+            try:
+                got = sweep(cm, bytearray(plain_code if which == "plain" else odex_code) if aa % 3 == 0 else (plain_code if which == "plain" else odex_code))
+            except Exception as e:
+                got = "raises " + exc_str(e)
+            want = want_plain if which == "plain" else want_odex
+            hist.append(which)
+            if got != want:
+                first = len(hist) == 1
+                ctx.violation("%s-code-misdecoded-%s" % (which, "first-in-process" if first else "after-the-other-format-was-disassembled"),
+                              "a unit aaFF is decoded by the rules of the other file format", {"unit": "%02xff" % aa, "formats_in_order": hist, "got": got, "want": want})
+                break
+        ctx.sig("mixed", aa >> 4, order[0])
+
+
 def shard_hostile(ctx, arg):
     idx, count = arg
     from androguard.core import dex
@@ -342,6 +393,7 @@ def run(ctx):
     nh = 6000 if ctx.quick else 1500000
     args = [["shard_valid", [i, nv // 16 + 1]] for i in range(16)] + [["shard_hostile", [i, nh // 16 + 1]] for i in range(16)]
     args += [["shard_feff", [i * 64, (i + 1) * 64]] for i in range(4)]
+    args += [["shard_mixed_formats", [i * 128, (i + 1) * 128]] for i in range(2)]
     files = shipped_dex_files()
     if ctx.quick:
         files = [f for f in files if os.path.getsize(f) < 1000000]
@@ -349,6 +401,7 @@ def run(ctx):
     ctx.run_shards(MOD, "dispatch", args, timeout=3000)
     ctx.require_counter("valid_methods_swept", 100)
     ctx.require_counter("feff_register_bytes", 256)
+    ctx.require_counter("sweeps_with_alternating_odex_and_plain_class_managers", 700)
     ctx.require_counter("hostile_buffers_swept", 1000)
     ctx.require_counter("shipped_methods_swept", 50)
     ctx.require_counter("invalid_instruction_reported", 100)
